@@ -15,6 +15,8 @@ ASSUMPTIONS = [
     "the independent content reading c16_sem (ISO 32000-1 7.2-7.3, 7.8.2, 8.9.7) is the meaning of 'what a page draws' as far as token spelling is concerned; operators are not interpreted",
     "inline image data end at the first EI preceded by white space and followed by white space, a delimiter or the end of the stream (the property's wording)",
     "Flate-compressed outputs are inflated with Python's zlib (the system library qpdf links)",
+    "the /Contents entry of a page means what ISO 32000-1 Table 30 says (c16_spec_page): a stream, or an array of streams read as their concatenation in order, an object listed k times contributing k times; a value of any other shape has no reading, and qpdf may then warn, refuse (exception / exit 2) or leave the page alone",
+    "the documents of the part 'pagelists' are written by the driver as classic PDF files and read back with processMemoryFile, so that every object is what qpdf's parser makes of a file",
 ]
 
 WS = [b"\x00", b"\t", b"\n", b"\x0c", b"\r", b" "]
@@ -485,6 +487,308 @@ def part_streams(chk, drv, runner):
     chk.cov["parts"]["streams"]["splits_at_token_boundaries"] = boundary
 
 
+# ---- page-content LISTS: what /Contents may look like (ISO 32000-1 Table 30) x every entry point that works on the list
+# fragments that read on their own; between them every way a stream can end (no white space, CR, comment without EOL, LF)
+PL_FRAGMENTS = [b"1 0 0 1 120 0 cm\n", b"0 0 1 rg 0 300 100 100 re f\n", b"1 0 0 rg 0 300 100 100 re f", b"q", b"Q\r", b"", b"\n",
+                b"BT /F1 12 Tf (a\rb) Tj ET", b"/Fm1 Do % c", b"q 100 0 0 100 0 300 cm\nBI /W 2 /H 2 /BPC 8 /CS /G ID \x10\x80\x80\xf0\nEI Q\n",
+                b"BI /W 1 /H 1 /BPC 8 /CS /G ID \x80\x81 EI", b"<48 65> Tj /N#41 gs\r\n", b"[(a) -1.5 (b\\)c)] TJ", b"0.5 .25 1. sc"]
+# streams that do not read on their own (content split inside a token, which the syntax does not allow): tie only
+PL_BROKEN = [b"(ab", b"cd) Tj", b"<4", b"BI /W 1 /H 1 ID ab"]
+
+# /Contents shapes over stream keys A B C D E (objects 4..8), non-stream objects: 20 = null, 21 = integer, 22 = dictionary,
+# 23 = array [A], 24 = empty array, 25 = array [B 23 0 R]; 77 does not exist.  Each entry: pages, extra objects
+PL_ARRAYS = ["r4", "r4.r5.r6", "r4.r4", "r4.r5.r5.r6", "r4.r5.r4", "r5.r4.r6.r4.r7.r4.r5", "r4.r4.r4", "r4.r5.r4.r5", "r8.r4.r8", "",
+             "r4.r5.r6.r7.r8.r4.r5.r6.r7.r8"]
+PL_BAD_ITEMS = ["n", "o", "d", "a(r4)", "a()", "r20", "r21", "r22", "r23", "r24", "r77"]
+
+
+def pl_shapes():
+    shapes = []
+    for a in PL_ARRAYS:
+        shapes.append(("a(%s)" % a, {}))                       # direct array
+        shapes.append(("r30", {30: "a(%s)" % a}))              # /Contents is an indirect array
+    shapes += [("r4", {}), ("-", {}), ("n", {}), ("r20", {}), ("r77", {}), ("o", {}), ("d", {}), ("r21", {}), ("r22", {})]
+    # the same stream on two / three pages: as single stream and in arrays, both orders, one indirect array used by two pages
+    shapes += [("a(r4.r5)/a(r5.r4)", {}), ("r4/a(r4)/a(r4.r4)", {}), ("r30/r30", {30: "a(r4.r5.r4)"}), ("a(r4.r5.r4)/r5/a(r5.r5)", {}),
+               ("r30/a(r5.r4.r5)/r31", {30: "a(r4.r4)", 31: "a(r5.r4.r4.r5)"})]
+    # elements that are not streams, at the front / in the middle / at the end, next to repeated streams
+    for it in PL_BAD_ITEMS:
+        shapes.append(("a(r4.%s.r5)" % it, {}))
+        shapes.append(("a(%s.r4.r4)" % it, {}))
+        shapes.append(("r30", {30: "a(r4.r5.r4.%s)" % it}))
+    shapes += [("a(r21.r4.n.r5)", {}), ("a(r21.r22.r4.r77.r5.n)", {}), ("a(n)", {}), ("a(r23)", {}), ("r25", {}), ("a(r25.r4)", {})]
+    return shapes
+
+
+PL_FIXED_OBJS = {20: "n", 21: "o", 22: "d", 23: "a(r4)", 24: "a()", 25: "a(r5.r23)"}
+PL_CMDS = ["c16pglist", "c16pgpipe", "c16pgcoalesce", "c16pgfilter", "c16pgtoks", "c16pgaddtf", "c16pgparse", "c16pgadd1", "c16pgadd0"]
+
+
+def pl_random_value(rng, keys, depth=0):
+    """a random /Contents value: arrays drawn WITH replacement from few keys, now and then a non-stream element"""
+    k = rng.random()
+    if depth == 0 and k < 0.08:
+        return rng.choice(["r%d" % rng.choice(keys), "-", "n"])
+    n = rng.choice([0, 1, 2, 2, 3, 3, 4, 5, 7])
+    items = []
+    for _ in range(n):
+        if rng.random() < 0.06:
+            items.append(rng.choice(PL_BAD_ITEMS))
+        elif items and rng.random() < 0.35:
+            items.append(rng.choice(items))          # repeat an earlier element (adjacent when it is the last one)
+        else:
+            items.append("r%d" % rng.choice(keys))
+    return "a(" + ".".join(items) + ")"
+
+
+def pl_line(cmd, pages, objs, extra=""):
+    o = ",".join("%d=%s" % (k, v) for k, v in sorted(objs.items())) or "-"
+    if cmd.startswith("c16pgadd") and cmd != "c16pgaddtf":
+        return "c16pgadd %s %s %s" % (pages, o, cmd[-1])
+    return "%s %s %s%s" % (cmd, pages, o, extra)
+
+
+def pl_ext_expect(want, min_bytes, split_images):
+    """token sequence after externalisation: every inline image of at least min_bytes becomes (name, Do); [(kind, payload)]"""
+    out = []
+    for seg in split_images(want):
+        if seg[0] == "tok":
+            out.append(("tok", seg[1]))
+        elif len(bytes.fromhex(seg[2])) >= min_bytes:
+            out.append(("img", seg[2]))
+        else:
+            out += [("tok", t) for t in ["op:4249"] + seg[1] + ["op:4944", "img:" + seg[2]]]
+    return out
+
+
+def part_pagelists(chk, drv, runner):
+    rng = chk.rng
+    docs = []           # (pages string, objects dict, label)
+    shapes = pl_shapes()
+    npool = 3 if chk.tier == "quick" else 40
+    for pi in range(npool):
+        if pi == 0:
+            pool = PL_FRAGMENTS[:5]
+        else:
+            pool = [rng.choice(PL_FRAGMENTS) if rng.random() < 0.6 else gen_soup(rng, rng.randint(1, 3), images=False) for _ in range(5)]
+            pool = [p if isinstance(p, bytes) else (p[0] if p[1] else b"q Q") for p in pool]
+        sobjs = {4 + i: "s" + (hexs(b) if b else "-") for i, b in enumerate(pool)}
+        for pages, extra in shapes:
+            docs.append((pages, {**sobjs, **PL_FIXED_OBJS, **extra}, "aimed"))
+    nrand = 250 if chk.tier == "quick" else 20000
+    for _ in range(nrand):
+        nk = rng.randint(1, 4)
+        pool = [rng.choice(PL_FRAGMENTS + PL_BROKEN) if rng.random() < 0.7 else gen_soup(rng, rng.randint(1, 2), images=False)[0] for _ in range(nk)]
+        sobjs = {4 + i: "s" + (hexs(b) if b else "-") for i, b in enumerate(pool)}
+        keys = sorted(sobjs)
+        objs = {**sobjs, **PL_FIXED_OBJS}
+        pages = []
+        for _p in range(rng.choice([1, 1, 2, 3])):
+            v = pl_random_value(rng, keys)
+            if v.startswith("a(") and rng.random() < 0.3:
+                k = 30 + len(pages)
+                objs[k] = v
+                v = "r%d" % k
+            pages.append(v)
+        if len(pages) > 1 and rng.random() < 0.3:
+            pages[1] = pages[0]                       # two pages with the very same /Contents value
+        docs.append(("/".join(pages), objs, "random"))
+    impl, model = {}, {}
+    for cmd in PL_CMDS:
+        lines = [pl_line(cmd, pg, ob) for pg, ob, _ in docs]
+        impl[cmd] = common.run_lines(drv, lines, shards=8)
+        model[cmd] = common.run_lines(runner, lines, shards=8)
+    ext_mins = [0, 3]
+    for mn in ext_mins:
+        impl["c16pgext%d" % mn] = common.run_lines(drv, [pl_line("c16pgext", pg, ob, " %d" % mn) for pg, ob, _ in docs], shards=8)
+    want_all = common.run_lines(runner, [pl_line("c16pgsem", pg, ob) for pg, ob, _ in docs], shards=8)
+    wf_all = common.run_lines(runner, [pl_line("c16pgwf", pg, ob) for pg, ob, _ in docs], shards=8)
+    # the reading of every output, in one batch
+    sem_lines = []
+    sem_idx = {}
+
+    def need_sem(h):
+        if h not in sem_idx:
+            sem_idx[h] = len(sem_lines)
+            sem_lines.append("c16sem " + h)
+
+    def field(res, di, pi):
+        """(value, warnings) of page pi in the answer for document di; (None, None) if the answer has another shape"""
+        f = res[di].split("/")
+        if len(f) <= pi or ":" not in f[pi]:
+            return res[di], "?"
+        v, _, w = f[pi].rpartition(":")
+        return v, w
+    npages = [len(pg.split("/")) for pg, _, _ in docs]
+    for di in range(len(docs)):
+        for pi in range(npages[di]):
+            for cmd in ("c16pgpipe", "c16pgcoalesce", "c16pgfilter", "c16pgaddtf", "c16pgadd1", "c16pgadd0", "c16pgext0", "c16pgext3"):
+                v, _w = field(impl[cmd], di, pi)
+                if v.startswith("exc") or v in ("K", "notstream"):
+                    continue
+                if cmd == "c16pgcoalesce":
+                    v = v[1:]
+                elif cmd == "c16pgfilter":
+                    v = v.split(" ")[0]
+                elif cmd.startswith("c16pgadd") and cmd != "c16pgaddtf":
+                    v = v.split(";")[-1]
+                elif cmd.startswith("c16pgext"):
+                    v = v.split(";")[0]
+                if re.fullmatch(r"-|[0-9a-f]+", v):
+                    need_sem(v)
+    sems = common.run_lines(runner, sem_lines, shards=8)
+    sem = lambda h: sems[sem_idx[h]]
+    try:
+        from c16_cli import split_images
+    except ImportError:
+        split_images = None
+    tie = []
+    nontriv = set()
+    stats = {"pages": 0, "valid_pages": 0, "pages_with_repeated_stream": 0, "pages_with_non_stream_item": 0, "fragment_pages": 0, "shared_between_pages": 0}
+    for di, (pages, objs, label) in enumerate(docs):
+        wants = want_all[di].split("|")
+        wfs = wf_all[di].split("/")
+        pvals = pages.split("/")
+        refs_per_page = [set(re.findall(r"r(\d+)", objs.get(int(pv[1:]), pv) if re.fullmatch(r"r\d+", pv) else pv)) for pv in pvals]
+        if any(refs_per_page[i] & refs_per_page[j] for i in range(len(pvals)) for j in range(i)):
+            stats["shared_between_pages"] += 1
+        desc = {"pages": pvals, "objects": {str(k): (repr(bytes.fromhex(v[1:])) if v.startswith("s") and v != "s-" else v) for k, v in sorted(objs.items())},
+                "syntax": "r<k> = reference to object k, a(..) = array, n = null, o = integer, d = dictionary, - = no /Contents; s<..> = stream data"}
+        for pi, pv in enumerate(pvals):
+            stats["pages"] += 1
+            want, wf = wants[pi], wfs[pi] == "1"
+            arr = objs.get(int(pv[1:]), pv) if re.fullmatch(r"r\d+", pv) else pv
+            items = re.findall(r"r\d+", arr) if arr.startswith("a(") else []
+            repeated = len(items) != len(set(items))
+            stats["pages_with_repeated_stream"] += repeated
+            stats["pages_with_non_stream_item"] += (not wf)
+            bad = None
+            pdesc = dict(desc, page=pi, contents=pv, expected_tokens=want[:600])
+            got = {cmd: field(impl[cmd], di, pi) for cmd in impl}
+            if wf and want != "invalid" and "img:-" not in want.split(" "):
+                stats["valid_pages"] += 1
+                # ISO 32000-1 Table 30: the page reads as the concatenation of its array elements' token sequences, one
+                # contribution per element; valid content is processed silently
+                order = ["c16pgpipe", "c16pgcoalesce", "c16pgfilter", "c16pgaddtf", "c16pgext0", "c16pgext3", "c16pgadd1", "c16pgadd0", "c16pglist", "c16pgtoks", "c16pgparse"]
+                failing = []
+                prev = None
+                for cmd, (v, w) in sorted(got.items(), key=lambda kv: order.index(kv[0]) if kv[0] in order else 99):
+                    if bad:
+                        failing.append((prev, bad))
+                        bad = None
+                    prev = cmd
+                    if cmd in ("c16pglist", "c16pgtoks", "c16pgparse"):
+                        if v.startswith("exc") or w != "-":
+                            bad = "%s: warning / exception on a page whose /Contents is valid" % cmd
+                        continue
+                    if cmd == "c16pgaddtf" and v == "exctype" and w == "-" and want == "-":
+                        pass            # no content at all: addTokenFilter has no stream to attach to (an API type error, nothing is rewritten)
+                    elif v.startswith("exc") or w != "-":
+                        bad = "%s: warning / exception on a page whose /Contents is valid" % cmd
+                    elif cmd == "c16pgcoalesce":
+                        if v != "K" and (v[:1] != "S" or sem(v[1:]) != want):
+                            bad = "coalesceContentStreams: the new content stream does not read as the page's token sequence"
+                            pdesc.setdefault("got_tokens", sem(v[1:])[:600] if v[:1] == "S" else v)
+                    elif cmd == "c16pgpipe":
+                        if sem(v) != want:
+                            bad = "pipePageContents does not read as the concatenation of the /Contents elements' token sequences (with multiplicity)"
+                            pdesc.setdefault("got_tokens", sem(v)[:600])
+                    elif cmd == "c16pgfilter":
+                        f = v.split(" ")
+                        if len(f) != 3 or sem(f[0]) != want:
+                            bad = "filterPageContents(normaliser): the page does not read as before"
+                            pdesc.setdefault("got_tokens", sem(f[0])[:600] if len(f) == 3 else v)
+                        elif f[1] == "1":
+                            bad = "filterPageContents(normaliser): valid page content reported as containing bad tokens"
+                    elif cmd == "c16pgaddtf":
+                        if sem(v) != want:
+                            bad = "addContentTokenFilter(normaliser): the page's stream does not read as before"
+                            pdesc.setdefault("got_tokens", sem(v)[:600])
+                    elif cmd in ("c16pgadd1", "c16pgadd0"):
+                        exp = sem_concat("op:71", want) if cmd == "c16pgadd1" else sem_concat(want, "op:71")
+                        if sem(v.split(";")[-1]) != exp:
+                            bad = "addPageContents(%s): the page does not read as the new stream %s its former content" % (
+                                "first" if cmd[-1] == "1" else "last", "followed by" if cmd[-1] == "1" else "after")
+                            pdesc.setdefault("got_tokens", sem(v.split(";")[-1])[:600])
+                    elif cmd.startswith("c16pgext") and split_images is not None:
+                        mn = int(cmd[8:])
+                        f = v.split(";")
+                        xo = dict(x.split("=") for x in f[2:])
+                        gt = sem(f[0])
+                        gtoks = gt.split(" ") if gt not in ("-", "invalid") else []
+                        exp = pl_ext_expect(want, mn, split_images)
+                        gi, names, why = 0, [], None
+                        for kind, payload in exp:
+                            if kind == "tok":
+                                if gtoks[gi:gi + 1] != [payload]:
+                                    why = "tokens changed"
+                                    break
+                                gi += 1
+                            else:
+                                pair = gtoks[gi:gi + 2]
+                                gi += 2
+                                if len(pair) != 2 or not pair[0].startswith("n:") or pair[1] != "op:446f":
+                                    why = "an inline image was not replaced by /Name Do"
+                                    break
+                                if pair[0] in names:
+                                    why = "two drawing positions share an image XObject name"
+                                    break
+                                names.append(pair[0])
+                                if xo.get(pair[0][2:]) != payload:
+                                    why = "image XObject data differ from the inline image's data"
+                                    break
+                        if why is None and (gt == "invalid" or gi != len(gtoks)):
+                            why = "extra / unreadable tokens"
+                        if why:
+                            bad = "externalizeInlineImages(%d): %s" % (mn, why)
+                            pdesc.setdefault("got_tokens", gt[:600])
+                if bad:
+                    failing.append((prev, bad))
+                if failing:
+                    bad = failing[0][1]
+                    pdesc["failing_entry_points"] = [c for c, _ in failing]
+            elif not wf:
+                # not a stream / array of streams: whatever REWRITES /Contents (addPageContents and coalesceContentStreams build a new
+                # value without the offending elements, externalisation a new stream) must say so - warning or exception - or leave
+                # the page alone; the read-only entry points are held to the model (contents_wf_iff_silent) by the tie below
+                for cmd in ("c16pgadd1", "c16pgadd0"):
+                    v, w = got[cmd]
+                    if w == "-" and not v.startswith("exc"):
+                        bad = "addPageContents rebuilt a /Contents value that is not a stream or an array of streams without any diagnostic"
+                v, w = got["c16pgcoalesce"]
+                if not bad and v != "K" and w == "-" and not v.startswith("exc"):
+                    bad = "coalesceContentStreams replaced an invalid /Contents array without any diagnostic"
+                for cmd in ("c16pgext0", "c16pgext3"):
+                    v, w = got[cmd]
+                    if not bad and w == "-" and not v.startswith("exc") and v.split(";")[1:2] == ["S"] and not re.fullmatch(r"r\d+", pv):
+                        bad = "externalizeInlineImages replaced an invalid /Contents array without any diagnostic"
+            else:
+                stats["fragment_pages"] += 1
+            if bad:
+                chk.violation(dict({"kind": "property-fails-on-implementation", "part": "pagelists", "why": bad,
+                                    "implementation": {c: "%s:%s" % got[c] for c in sorted(got)},
+                                    "model": {c: "%s:%s" % field(model[c], di, pi) for c in sorted(model)},
+                                    "replay": pl_line("c16pgpipe", pages, objs)}, **pdesc),
+                              signature="C16:pagelists:" + ("repeated" if repeated else "changed" if wf else "invalid-structure"))
+            elif any(impl[c][di] != model[c][di] for c in PL_CMDS):
+                tie.append(di)
+            if repeated or not wf or len(pvals) > 1:
+                nontriv.add((pages, tuple(sorted(objs.items()))))
+    if tie:
+        di = tie[0]
+        pages, objs, _ = docs[di]
+        c = [c for c in PL_CMDS if impl[c][di] != model[c][di]][0]
+        chk.violation({"kind": "correspondence-broken", "correspondence": "corr:C16:pagelists", "differing_cases": len(set(tie)), "pages": pages.split("/"),
+                       "objects": {str(k): v for k, v in sorted(objs.items())}, "command": c, "implementation": impl[c][di][:1500], "model": model[c][di][:1500],
+                       "replay": pl_line(c, pages, objs),
+                       "note": "model and implementation differ but the property holds on the implementation's result for every explored case"}, no_input=True)
+    chk.count("pagelists", len(docs) * (len(PL_CMDS) + len(ext_mins)), nontriv,
+              samples=[{"pages": docs[i][0], "objects": {str(k): v[:40] for k, v in sorted(docs[i][1].items())}} for i in (4, len(docs) - 1)])
+    chk.cov["parts"]["pagelists"].update(stats)
+    chk.cov["parts"]["pagelists"]["documents"] = len(docs)
+    chk.cov["parts"]["pagelists"]["entry_points"] = PL_CMDS + ["c16pgext%d" % m for m in ext_mins]
+
+
 def run(chk):
     drv = os.path.join(common.DRV, "drv")
     runner = os.path.join(common.EXTRACT, "model_runner")
@@ -493,15 +797,36 @@ def run(chk):
                        "and before EI, EI look-alikes, every delimiter after EI), grammar-derived token soup, damaged content (nine kinds); non-trivial = the normaliser "
                        "changes the bytes, distinct by input. streams: six base contents split at every byte position + random 2..4-way splits through "
                        "pipePageContents / coalesceContentStreams / filterPageContents; non-trivial = more than one stream, distinct by stream list. "
-                       "cli: see parts.cli")
+                       "pagelists: every /Contents shape (direct / indirect / shared array with adjacent and non-adjacent repeated entries, one stream on several "
+                       "pages, one-element and empty arrays, single stream, absent, null, non-array values, elements that are null / numbers / dictionaries / "
+                       "nested arrays / references to such objects or to nothing) x stream pools + random arrays drawn with replacement, through getPageContents, "
+                       "pipePageContents, coalesceContentStreams, filterPageContents, addContentTokenFilter, parsePageContents, addPageContents(first/last), "
+                       "externalizeInlineImages(0/3) on files read back by qpdf; non-trivial = a repeated entry, a non-stream element or more than one page, "
+                       "distinct by document. cli: see parts.cli")
+    import time
+    t0 = time.time()
+    phases = chk.cov.setdefault("phase_seconds", {})
     part_normalize(chk, drv, runner)
+    phases["normalize"] = round(time.time() - t0, 1)
+    t0 = time.time()
     part_streams(chk, drv, runner)
+    phases["streams"] = round(time.time() - t0, 1)
+    t0 = time.time()
+    part_pagelists(chk, drv, runner)
+    phases["pagelists"] = round(time.time() - t0, 1)
+    t0 = time.time()
     try:
         import c16_cli
     except ImportError:
         c16_cli = None
     if c16_cli is not None:
         c16_cli.part_cli(chk, runner)
+    phases["cli"] = round(time.time() - t0, 1)
+    byp = {}
+    for rep, _no_input in chk.violations:
+        k = str(rep.get("part") or rep.get("correspondence") or rep.get("kind"))
+        byp[k] = byp.get(k, 0) + 1
+    chk.cov["violations_by_part"] = byp
     if chk.tier == "thorough":
         # independent re-check of the compiled proofs and of their axiom list
         rc, out = common.sh("timeout 2400 coqchk -o -silent -Q . QV QV.Props.Properties_C16", cwd=common.COQ, timeout=2500)
